@@ -12,6 +12,7 @@ import (
 	"os"
 	"os/exec"
 	"path/filepath"
+	"regexp"
 	"runtime"
 	"sort"
 	"strconv"
@@ -155,6 +156,11 @@ type Check struct {
 	// Exhaustive marks the quick/thorough tiers that enumerate a finite
 	// space completely.
 	Exhaustive bool
+	// RaceLogs makes the parent run the workers with the race detector in
+	// non-halting mode, collect its reports and turn every report that
+	// involves a frame matching RaceFrames into a violation.
+	RaceLogs   bool
+	RaceFrames []string
 }
 
 // Tier returns the tier of this run.
@@ -391,7 +397,12 @@ func parent(t *testing.T, c Check) {
 			defer cancel()
 			cmd := exec.Command(os.Args[0], "-test.run", "^"+t.Name()+"$",
 				"-test.timeout", "0")
-			cmd.Env = append(os.Environ(),
+			env := os.Environ()
+			if c.RaceLogs {
+				env = append(env, "GORACE=halt_on_error=0 history_size=3 log_path="+
+					filepath.Join(tmp, fmt.Sprintf("race.shard%d", i)))
+			}
+			cmd.Env = append(env,
 				"VERIF_SHARD="+strconv.Itoa(i),
 				"VERIF_NSHARDS="+strconv.Itoa(procs),
 				"VERIF_OUT="+out,
@@ -482,6 +493,20 @@ func parent(t *testing.T, c Check) {
 				Replay: map[string]any{
 					"stderr_tail": r.stderr,
 				},
+			})
+		}
+	}
+
+	if c.RaceLogs {
+		reports, total2 := collectRaceReports(tmp, c.RaceFrames)
+		total.Counters["race_reports_total"] = int64(total2)
+		total.Counters["race_reports_distinct"] = int64(len(reports))
+		for _, r := range reports {
+			total.Viol = append(total.Viol, Violation{
+				Key:    "race|" + r.key,
+				Desc:   fmt.Sprintf("data race reported %d time(s) by the race detector between %s", r.count, r.key),
+				Case:   -1,
+				Replay: map[string]any{"report": r.text},
 			})
 		}
 	}
@@ -667,4 +692,70 @@ func crashKind(s string) string {
 		return "fatal"
 	}
 	return "exit"
+}
+
+type raceReport struct {
+	key   string
+	text  string
+	count int
+}
+
+var lineNoRe = regexp.MustCompile(`:\d+ \+0x[0-9a-f]+`)
+
+// collectRaceReports parses the race detector's log files, keeps the reports
+// that involve one of the given frame fragments and deduplicates them by the
+// pair of innermost functions of the two conflicting accesses.
+func collectRaceReports(dir string, frames []string) ([]raceReport, int) {
+	files, _ := filepath.Glob(filepath.Join(dir, "race.shard*"))
+	byKey := map[string]*raceReport{}
+	total := 0
+	for _, f := range files {
+		b, err := os.ReadFile(f)
+		if err != nil {
+			continue
+		}
+		for _, blk := range strings.Split(string(b), "==================") {
+			if !strings.Contains(blk, "WARNING: DATA RACE") {
+				continue
+			}
+			total++
+			rel := false
+			for _, fr := range frames {
+				if strings.Contains(blk, fr) {
+					rel = true
+				}
+			}
+			if !rel {
+				continue
+			}
+			// innermost function of each access: the line following
+			// "Read at"/"Write at"/"Previous read at"/"Previous write at".
+			var fns []string
+			lines := strings.Split(blk, "\n")
+			for i, l := range lines {
+				lt := strings.TrimSpace(l)
+				if (strings.HasPrefix(lt, "Read at") || strings.HasPrefix(lt, "Write at") ||
+					strings.HasPrefix(lt, "Previous read at") || strings.HasPrefix(lt, "Previous write at")) && i+1 < len(lines) {
+					fn := strings.TrimSpace(lines[i+1])
+					if j := strings.Index(fn, "("); j > 0 && strings.HasSuffix(fn, ")") {
+						// keep full name incl. receiver
+					}
+					fns = append(fns, fn)
+				}
+			}
+			sort.Strings(fns)
+			key := strings.Join(fns, " <-> ")
+			if r, ok := byKey[key]; ok {
+				r.count++
+			} else {
+				byKey[key] = &raceReport{key: key, text: lineNoRe.ReplaceAllString(tail(blk, 5000), ""), count: 1}
+			}
+		}
+	}
+	var out []raceReport
+	for _, r := range byKey {
+		out = append(out, *r)
+	}
+	sort.Slice(out, func(i, j int) bool { return out[i].key < out[j].key })
+	return out, total
 }
